@@ -528,6 +528,11 @@ func (d *Driver) apiCall(in *Inst, o *elObj, a *Action, ev *ApiEvt) {
 		if o.cancelStart != nil {
 			o.cancelStart()
 		}
+		// the instance's background activity ends: it is no longer a running candidate
+		d.mu.Lock()
+		in.running = false
+		in.watchOK = false
+		d.mu.Unlock()
 	case AStatus:
 		d.checkSnapshot(in, o, o.el.Status())
 	case AReadAPI:
